@@ -15,7 +15,11 @@ every real pre-state; event_wf (the only hypothesis of the totality theorems) an
 request stream ids (the domain on which the model keys handler tasks by stream id) are checked on
 every event trace.
 
-Direct oracle: the property statement itself (see oracle()), independent of the model.
+Direct oracle: the property statement itself (see oracle()), independent of the model; for the
+tolerance part also in AGGREGATE (oracle_agg): after a long run of tolerable traffic at the minimum
+flow-control windows no stream is registered that no live call owns, every flow-controlled byte h2
+handed to grpclib has been credited back, the well-behaved peer never ran out of credit, and a call
+with a payload larger than any window still completes.
 
 What is below the h2-event boundary ("whatever bytes") is covered fuzz-style only and labelled so."""
 import asyncio
@@ -506,6 +510,8 @@ class Probe:
         self.repeated_resets = 0
         self.discipline = []
         self.undelivered = 0
+        self.fc_received = {}    # sid -> flow-controlled bytes of the DataReceived events h2 handed out
+        self.fc_credited = {}    # sid -> bytes grpclib acknowledged (whoever called, whenever)
         conn = proto.connection._connection
         orig_recv = conn.receive_data
         orig_ack = conn.acknowledge_received_data
@@ -522,11 +528,16 @@ class Probe:
                 if self.cur is not None:
                     self.cur['h2raise'] = type(e).__name__
                 raise
+            for ev in evs:
+                if type(ev).__name__ == 'DataReceived':
+                    self.fc_received[ev.stream_id] = self.fc_received.get(ev.stream_id, 0) + \
+                        ev.flow_controlled_length
             if self.cur is not None:
                 self.cur['events'] = list(evs)
             return evs
 
         def acknowledge_received_data(size, stream_id):
+            self.fc_credited[stream_id] = self.fc_credited.get(stream_id, 0) + size
             if self.cur is not None:
                 self.cur['credit'].append((stream_id, size))
             return orig_ack(size, stream_id)
@@ -739,6 +750,7 @@ async def _handler(stream):
 def run_case(case):
     """returns the observation record of one case"""
     end = case['end']
+    agg = case.get('kind') == 'agg'
     obs = {'end': end, 'raises': [], 'closed': False, 'h2err': False, 'outcomes': {}, 'pending': [],
            'leftover': [], 'batches': [], 'discipline': [], 'evclasses': [], 'undelivered': 0,
            'done_before_close': {}, 'late': {}, 'skipped': [], 'post_close_probe': None}
@@ -747,7 +759,9 @@ def run_case(case):
     logging.disable(logging.CRITICAL)
     try:
         with vloop.session() as loop:
-            if end == 'client':
+            if agg:
+                _run_agg(loop, case, obs)
+            elif end == 'client':
                 _run_client(loop, case, obs)
             else:
                 _run_server(loop, case, obs)
@@ -966,6 +980,381 @@ def _collect(probe, obs, n_pre):
 
 
 # ---------------------------------------------------------------------------------------------------
+# aggregate scenario: MANY rounds of tolerable traffic on one connection at the minimum windows, so that
+# anything that is tolerated frame by frame but leaks (a registry entry, flow-control credit) bites
+
+MIN_WINDOWS = {'http2_connection_window_size': 65535, 'http2_stream_window_size': 65535}
+
+
+def gen_agg_burst(rng, end, mid):
+    k = rng.choice(['stream', 'stream', 'raw', 'raw'] + (['pad_only', 'pad_only', 'empty'] if mid else []))
+    if k == 'pad_only':
+        return {'t': 'pad_only', 'pad': rng.choice([0, 1, 100, 255])}
+    if k == 'empty':
+        return {'t': 'empty'}
+    if k == 'raw':
+        kind = rng.choice(['unknown', 'ping', 'priority', 'altsvc', 'settings'])
+        if kind == 'unknown':
+            data = P.frame_bytes(rng.choice([0x0b, 0x0f, 0x4f, 0xff]), rng.randint(0, 255), 0,
+                                 rand_bytes(rng, rng.choice([0, 8, 40])))
+        elif kind == 'ping':
+            data = P.frame_bytes(0x6, 0, 0, rand_bytes(rng, 8))
+        elif kind == 'priority':
+            data = P.frame_bytes(0x2, 0, 0x7ffffff1, struct.pack('>IB', 0, rng.randint(0, 255)))
+        elif kind == 'altsvc':
+            data = P.frame_bytes(0x0a, 0, 0, struct.pack('>H', 1) + b'x' + b'h2=":1"')
+        else:
+            data = P.frame_bytes(0x4, 0, 0, struct.pack('>HI', 0x99, rng.randint(0, 9)))
+        return {'t': 'raw', 'hex': data.hex(), 'd': kind}
+    if end == 'client':
+        # a stream the server peer opens towards the client, with DATA, all in ONE read; refused
+        return {'t': 'peer_stream', 'n': rng.choice([0, 100, 4000, 12000, 16000]),
+                'pad': rng.choice([None, None, 0, 50, 255]), 'es': rng.random() < 0.3,
+                'rst': rng.random() < 0.7, 'rst_code': rng.choice([0, 8])}
+    # a request the server finishes at once (unknown method) while its body is already on the wire
+    return {'t': 'early_reject', 'n': rng.choice([0, 100, 4000, 12000]), 'frames': rng.choice([1, 2, 4]),
+            'pad': rng.choice([None, 0, 50, 255])}
+
+
+def gen_agg_case(rng, end):
+    rounds = []
+    for _ in range(rng.choice([20, 28, 36])):
+        bursts = []
+        for _ in range(rng.choice([0, 1, 1, 2, 3])):
+            at = rng.choice(['before', 'mid', 'after'])
+            b = gen_agg_burst(rng, end, at == 'mid')
+            b['at'] = at
+            bursts.append(b)
+        rounds.append({'size': rng.choice([5, 200, 3000, 12000]), 'frames': rng.choice([1, 2, 4, 8, 12]),
+                       'pad': rng.choice([255, 255, 255, 100, 0, None]), 'bursts': bursts,
+                       'cutf': [round(rng.random(), 4) for _ in range(rng.choice([0, 0, 1, 3]))]})
+    return {'kind': 'agg', 'end': end, 'rounds': rounds, 'final': rng.choice([70000, 100000, 150000])}
+
+
+class _OwnStreamsOnly:
+    """the scripted server peer's real h2 did not open the even streams the script injects by hand, so it
+    must not see what the client answers on them (it would call that a protocol error of the client)"""
+
+    def __init__(self, sink):
+        self.sink = sink
+        self.buf = b''
+        self.dropped = []
+
+    def __call__(self, data):
+        self.buf += data
+        out = b''
+        while len(self.buf) >= 9:
+            n = int.from_bytes(self.buf[:3], 'big')
+            if len(self.buf) < 9 + n:
+                break
+            frame, self.buf = self.buf[:9 + n], self.buf[9 + n:]
+            sid = int.from_bytes(frame[5:9], 'big') & 0x7fffffff
+            if sid and sid % 2 == 0:
+                self.dropped.append((frame[3], sid))
+            else:
+                out += frame
+        if out:
+            self.sink(out)
+
+
+async def _len_handler(stream):
+    msg = await stream.recv_message()
+    await stream.send_message(b'R:%d' % len(msg or b''))
+
+
+def _pieces(data, k):
+    if not data:
+        return [b'']
+    k = max(1, min(k, len(data)))
+    step = (len(data) + k - 1) // k
+    return [data[i:i + step] for i in range(0, len(data), step)]
+
+
+def _run_agg(loop, case, obs):
+    from grpclib.client import UnaryUnaryMethod
+    from grpclib.config import Configuration
+    end = case['end']
+    cfg = Configuration(**MIN_WINDOWS)
+    agg = {'rounds_ok': 0, 'round_failures': [], 'stalled': None, 'registry': [], 'ledger_bad': {},
+           'final': None, 'refused': 0, 'received': 0, 'credited': 0}
+    obs['agg'] = agg
+    if end == 'client':
+        ep = wire.ClientEnd(loop, config=cfg)
+        m = UnaryUnaryMethod(ep.channel, '/v.S/L', bytes, bytes)
+        warm = loop.create_task(m(b'w', timeout=30))
+        loop.run_quiet(0.5)
+        filt = _OwnStreamsOnly(ep.peer.receive)
+        ep.transport.on_write = filt
+    else:
+        ep = wire.ServerEnd(loop, [Service('v.S', {'L': (_len_handler, 'UU')})], config=cfg)
+        loop.run_quiet(0.5)
+    probe = Probe(end, ep.proto, ep.transport)
+    peer = ep.peer
+    def req_for(path):
+        return [(k, path if k == ':path' else v) for k, v in P.REQ_HEADERS] + [('grpc-timeout', '30S')]
+    state = {'even': 2}
+
+    def send(cutf=None):
+        data = peer.h2.data_to_send()
+        if data:
+            probe.deliver(data, cutf)
+
+    def alive():
+        return not (ep.transport.closing or ep.transport.lost)
+
+    def send_data(sid, data, pad=None, end_stream=False):
+        """what a well-behaved peer does: wait for flow-control credit, never exceed it"""
+        need = len(data) + (pad + 1 if pad is not None else 0)
+        for _ in range(6):
+            if not alive():
+                return False
+            try:
+                if peer.h2.local_flow_control_window(sid) >= need:
+                    peer.h2.send_data(sid, data, end_stream=end_stream, pad_length=pad)
+                    return True
+            except H2ProtocolError:
+                return False
+            send()
+            loop.run_quiet(0.2)
+        return None          # stalled: no credit although the endpoint had time to return it
+
+    def burst(b, sid):
+        if b['t'] == 'raw':
+            probe.deliver(bytes.fromhex(b['hex']))
+        elif b['t'] == 'pad_only':
+            if sid is not None:
+                return send_data(sid, b'', pad=b['pad'])
+        elif b['t'] == 'empty':
+            if sid is not None:
+                return send_data(sid, b'')
+        elif b['t'] == 'peer_stream':
+            n2 = state['even']
+            state['even'] += 2
+            fc = b['n'] + (b['pad'] + 1 if b['pad'] is not None else 0)
+            send()
+            for _ in range(6):
+                if peer.h2.outbound_flow_control_window >= fc:
+                    break
+                loop.run_quiet(0.2)
+                send()
+            else:
+                return None
+            peer.h2.outbound_flow_control_window -= fc      # the script's DATA uses the peer's connection credit
+            data = headers_frame(n2, P.REQ_HEADERS)
+            if b['n'] or b['pad'] is not None:
+                data += P.data_frame(n2, b'p' * b['n'], end_stream=b['es'], pad=b['pad'])
+            if b['rst']:
+                data += P.frame_bytes(0x3, 0, n2, struct.pack('>I', b['rst_code']))
+            probe.deliver(data)                              # ONE read
+            agg['refused'] += 1
+        elif b['t'] == 'early_reject':
+            try:
+                s2 = peer.h2.get_next_available_stream_id()
+                peer.h2.send_headers(s2, req_for('/v.S/Nope'), end_stream=(b['n'] == 0 and b['pad'] is None))
+            except H2ProtocolError:
+                return False
+            if b['n'] or b['pad'] is not None:
+                parts = _pieces(b'n' * b['n'], b['frames']) or [b'']
+                for i, part in enumerate(parts):
+                    r = send_data(s2, part, pad=b['pad'], end_stream=(i == len(parts) - 1))
+                    if r is not True:
+                        return r
+            send()                                           # ONE read: headers and body before the handler runs
+        return True
+
+    def run_bursts(rd, at, sid):
+        for b in rd['bursts']:
+            if b['at'] == at and agg['stalled'] is None:
+                if burst(b, sid) is None:
+                    agg['stalled'] = 'burst %s' % b['t']
+
+    def one_call(size, frames, pad, rd, idx):
+        """one well-behaved unary call; returns None (ok) or a description of what went wrong"""
+        body = b'q' * size
+        if end == 'client':
+            task = loop.create_task(m(b'x', timeout=30))
+            loop.run_quiet(0.2)
+            rr = [e for e in peer.take_events() if type(e).__name__ == 'RequestReceived']
+            if not rr:
+                return 'request never reached the peer'
+            sid = rr[-1].stream_id
+            if rd:
+                run_bursts(rd, 'before', None)
+            try:
+                peer.h2.send_headers(sid, P.RESP_HEADERS)
+            except H2ProtocolError:
+                return 'peer could not answer'
+            parts = _pieces(P.grpc_frame(body), frames)
+            for i, part in enumerate(parts):
+                if rd and i == len(parts) // 2:
+                    run_bursts(rd, 'mid', sid)
+                r = send_data(sid, part, pad=pad)
+                if r is None:
+                    agg['stalled'] = 'call %s' % idx
+                    return 'stalled'
+                if r is False:
+                    return 'peer could not send'
+            try:
+                peer.h2.send_headers(sid, [('grpc-status', '0')], end_stream=True)
+            except H2ProtocolError:
+                return 'peer could not finish'
+            send(rd['cutf'] if rd else None)
+            if rd:
+                run_bursts(rd, 'after', None)
+            loop.run_quiet(0.3)
+            send()
+            loop.run_quiet(0.3)
+            o = vloop.outcome(task)
+            if o[0] == 'ok' and o[1] == body:
+                return None
+            return 'call ended with %s' % (o[0] if o[0] != 'exc' else exc_name(o[1]))
+        # server endpoint
+        if rd:
+            run_bursts(rd, 'before', None)
+        try:
+            sid = peer.h2.get_next_available_stream_id()
+            peer.h2.send_headers(sid, req_for('/v.S/L'))
+        except H2ProtocolError:
+            return 'peer could not open a stream'
+        parts = _pieces(P.grpc_frame(body), frames)
+        for i, part in enumerate(parts):
+            if rd and i == len(parts) // 2:
+                run_bursts(rd, 'mid', sid)
+            r = send_data(sid, part, pad=pad, end_stream=(i == len(parts) - 1))
+            if r is None:
+                agg['stalled'] = 'call %s' % idx
+                return 'stalled'
+            if r is False:
+                return 'peer could not send'
+        send(rd['cutf'] if rd else None)
+        if rd:
+            run_bursts(rd, 'after', None)
+        loop.run_quiet(0.6)
+        send()
+        loop.run_quiet(0.3)
+        got = {'data': b'', 'status': None}
+        for ev in peer.take_events():
+            if getattr(ev, 'stream_id', None) != sid:
+                continue
+            if type(ev).__name__ == 'DataReceived':
+                got['data'] += ev.data
+            elif type(ev).__name__ in ('TrailersReceived', 'ResponseReceived'):
+                got['status'] = dict(ev.headers).get('grpc-status', got['status'])
+        if got['status'] == '0' and got['data'] == P.grpc_frame(b'R:%d' % size):
+            return None
+        return 'call answered with status %s' % got['status']
+
+    if end == 'client':
+        # finish the warm-up call that opened the connection
+        rr = [e for e in peer.take_events() if type(e).__name__ == 'RequestReceived']
+        if rr:
+            peer.h2.send_headers(rr[-1].stream_id, P.RESP_HEADERS)
+            peer.h2.send_data(rr[-1].stream_id, P.grpc_frame(b'w'))
+            peer.h2.send_headers(rr[-1].stream_id, [('grpc-status', '0')], end_stream=True)
+            send()
+            loop.run_quiet(0.3)
+        del warm
+    n_pre = len(probe.batches)
+    for idx, rd in enumerate(case['rounds']):
+        if agg['stalled'] is not None or not alive():
+            break
+        bad = one_call(rd['size'], rd['frames'], rd['pad'], rd, idx)
+        if bad is None:
+            agg['rounds_ok'] += 1
+        else:
+            agg['round_failures'].append((idx, bad))
+            if len(agg['round_failures']) > 3:
+                break
+    send()
+    loop.run_quiet(1.0)
+    send()
+    loop.run_quiet(35)            # every deadline (30 s) is over: all calls and handlers are done
+    send()
+    # (a) who is still registered although no call is alive
+    agg['registry'] = sorted(ep.proto.processor.streams)
+    # (b) ledger at the h2 API boundary: flow-controlled bytes handed to grpclib vs bytes it credited back
+    for sid, got in sorted(probe.fc_received.items()):
+        cr = probe.fc_credited.get(sid, 0)
+        agg['received'] += got
+        agg['credited'] += cr
+        if cr != got:
+            agg['ledger_bad'][sid] = (got, cr)
+    # (c) a well-behaved call with a payload larger than any window still completes
+    if alive() and agg['stalled'] is None:
+        bad = one_call(case['final'], max(1, case['final'] // 8000), None, None, 'final')
+        agg['final'] = 'ok' if bad is None else bad
+    obs['closed'] = not alive()
+    if end == 'server':
+        h = ep.proto.handler
+        for tk in list(h._tasks.values()) + list(h._cancelled):
+            if not tk.done():
+                obs['pending'].append('handler')
+    _collect(probe, obs, n_pre)
+    obs['outcomes'] = {'rounds_ok': str(agg['rounds_ok']), 'final': str(agg['final'])}
+
+
+def oracle_agg(case, obs):
+    end, agg = obs['end'], obs['agg']
+    out = []
+    for r in obs['raises']:
+        out.append(('%s raised out of H2Protocol.data_received (%s)' % (r['exc'], r['text']),
+                    {'kind': 'raise', 'exc': r['exc'], 'end': end, 'via': r['via']}))
+    if obs['raises']:
+        return out
+    if obs['closed'] or obs['h2err']:
+        out.append(('connection shut down during a long run of tolerable traffic',
+                    {'kind': 'agg-closed', 'end': end, 'h2err': obs['h2err']}))
+        return out
+    if agg['stalled'] is not None:
+        out.append(('a well-behaved peer ran out of flow-control credit (%s) although every byte it sent was '
+                    'consumed or belonged to a finished stream' % agg['stalled'],
+                    {'kind': 'agg-stalled', 'end': end}))
+    for idx, bad in agg['round_failures'][:1]:
+        if bad != 'stalled':
+            out.append(('well-behaved call %s of a long tolerable run: %s' % (idx, bad),
+                        {'kind': 'agg-call-broken', 'end': end}))
+    if agg['registry']:
+        out.append(('streams %r are still registered although every call is over' % agg['registry'],
+                    {'kind': 'agg-registry-leak', 'end': end}))
+    if agg['ledger_bad']:
+        sid, (got, cr) = sorted(agg['ledger_bad'].items())[0]
+        out.append(('flow-control credit not returned: stream %d received %d flow-controlled bytes, %d credited '
+                    '(%d streams differ; total %d received, %d credited)' % (
+                        sid, got, cr, len(agg['ledger_bad']), agg['received'], agg['credited']),
+                    {'kind': 'agg-credit-leak', 'end': end, 'sign': 'under' if cr < got else 'over'}))
+    if agg['final'] not in (None, 'ok'):
+        out.append(('final call with a %d byte payload after the tolerable run: %s' % (case['final'], agg['final']),
+                    {'kind': 'agg-final-call', 'end': end}))
+    for k in obs['pending']:
+        out.append(('%s still pending after every deadline' % k, {'kind': 'hang', 'end': end, 'closed': False}))
+    return out
+
+
+def _account_agg(res, case, obs):
+    agg = obs['agg']
+    res.count('agg:end:' + obs['end'])
+    res.count('agg:rounds', len(case['rounds']))
+    res.count('agg:calls ok', agg['rounds_ok'])
+    res.count('agg:peer-opened streams refused', agg['refused'])
+    res.count('agg:flow-controlled bytes received', agg['received'])
+    res.count('agg:flow-controlled bytes credited', agg['credited'])
+    res.count('agg:final call:' + str(agg['final']))
+    res.signatures.add(('agg', obs['end'], len(case['rounds']), agg['rounds_ok'], agg['final']))
+    if sum(1 for s in res.samples if isinstance(s, dict) and s.get('kind') == 'agg') < 1:
+        res.sample({'kind': 'agg', 'end': obs['end'], 'rounds': len(case['rounds']),
+                    'first_round': case['rounds'][0], 'final': case['final'],
+                    'ledger': (agg['received'], agg['credited'])}, limit=8)
+    for what, sig in oracle_agg(case, obs):
+        res.oracle_failures.append({'case': slim(case), 'what': what, 'signature': sig,
+                                    'observed': {'agg': {k: v for k, v in agg.items() if k != 'ledger_bad'},
+                                                 'ledger_bad': dict(list(agg['ledger_bad'].items())[:5]),
+                                                 'closed': obs['closed'], 'raises': obs['raises']}})
+    for d in obs['discipline']:
+        res.disagreements.append({'case': slim(case), 'model': 'event_wf / fresh request ids assumed of h2',
+                                  'impl': d})
+
+
+# ---------------------------------------------------------------------------------------------------
 # direct oracle: the property statement, on observables only (no model)
 
 def oracle(case, obs):
@@ -1034,7 +1423,27 @@ def oracle(case, obs):
 # correspondence of every observed data_received call with the model
 
 def slim(case):
+    if case.get('kind') == 'agg':
+        return {k: v for k, v in case.items() if k != 'note'}
     return {'end': case['end'], 'steps': case['steps']}
+
+
+def _queue_batches(res, case, obs, lines, refs):
+    for bi, b in enumerate(obs['batches']):
+        if b['h2raise'] and not (b['h2raise'] == 'UnicodeDecodeError' and b['raised'] is None):
+            # h2 raised something that is neither a ProtocolError nor the UnicodeDecodeError that
+            # data_received handles: below the model, judged by the oracle only
+            res.count('batch:raise-below-the-model:' + b['h2raise'])
+            continue
+        if b['h2raise']:
+            res.count('batch:h2-UnicodeDecodeError-handled')
+        if obs['end'] == 'client' and b['raised'] is None:
+            nreq = sum(1 for e in b['events'] or [] if type(e).__name__ == 'RequestReceived')
+            if nreq:
+                res.count('client:peer-opened stream refused with RST_STREAM', len(b['rst']))
+                res.count('client:peer-opened stream refused silently (not closable)', nreq - len(b['rst']))
+        lines.append(model_line(b))
+        refs.append((case, obs, bi, b))
 
 
 def check(ctx, res, cases):
@@ -1045,6 +1454,10 @@ def check(ctx, res, cases):
         obs = run_case(case)
         all_obs.append(obs)
         res.evaluations += 1
+        if case.get('kind') == 'agg':
+            _account_agg(res, case, obs)
+            _queue_batches(res, case, obs, lines, refs)
+            continue
         tol = case_tol(case)
         res.count('end:' + obs['end'])
         res.count('class:' + ('tolerable-only' if tol else 'mixed'))
@@ -1079,21 +1492,7 @@ def check(ctx, res, cases):
         for d in obs['discipline']:
             res.disagreements.append({'case': slim(case), 'model': 'event_wf / fresh request ids assumed of h2',
                                       'impl': d})
-        for bi, b in enumerate(obs['batches']):
-            if b['h2raise'] and not (b['h2raise'] == 'UnicodeDecodeError' and b['raised'] is None):
-                # h2 raised something that is neither a ProtocolError nor the UnicodeDecodeError that
-                # data_received handles: below the model, judged by the oracle only
-                res.count('batch:raise-below-the-model:' + b['h2raise'])
-                continue
-            if b['h2raise']:
-                res.count('batch:h2-UnicodeDecodeError-handled')
-            if obs['end'] == 'client' and b['raised'] is None:
-                nreq = sum(1 for e in b['events'] or [] if type(e).__name__ == 'RequestReceived')
-                if nreq:
-                    res.count('client:peer-opened stream refused with RST_STREAM', len(b['rst']))
-                    res.count('client:peer-opened stream refused silently (not closable)', nreq - len(b['rst']))
-            lines.append(model_line(b))
-            refs.append((case, obs, bi, b))
+        _queue_batches(res, case, obs, lines, refs)
     if not ctx.model_ok or not lines:
         return all_obs
     answers = ctx.model(lines)
@@ -1178,7 +1577,14 @@ RULE = ('per case: one connection (client or server endpoint) with a finished ca
         'of ~55 plausible-and-wrong frames of every type 0x00-0x0a plus random type/flags/id/length frames and '
         'raw random bytes; all bytes re-cut at 0-9 PRNG points; the loop runs 0/0.1/0.5 s or not at all between '
         'steps.  distinct = distinct (endpoint, set of h2 event classes produced after the prelude, h2 '
-        'ProtocolError?, closed?, exception classes) tuples; every data_received call is one model trace.')
+        'ProtocolError?, closed?, exception classes) tuples; every data_received call is one model trace.  '
+        'AGGREGATE cases (8 quick / 200 thorough + 2 corpus): one connection at the minimum windows '
+        '(65535/65535), 20-36 rounds of a well-behaved unary call whose DATA is split in 1-12 frames padded '
+        '0/100/255, with 0-3 tolerable bursts per round (padding-only and empty DATA on the open stream, '
+        'unknown/PING/PRIORITY/ALTSVC/SETTINGS frames; client: a stream the peer opens with up to 16000 bytes '
+        'of padded DATA and RST_STREAM in ONE read; server: a request rejected at once with up to 12000 bytes '
+        'of padded body already buffered), the scripted peer never exceeding the credit it was given; then '
+        'a ledger at the h2 API boundary and a final call with a 70000-150000 byte payload.')
 
 
 def run(ctx):
@@ -1190,8 +1596,11 @@ def run(ctx):
     for i in range(n):
         end = 'client' if i % 2 == 0 else 'server'
         cases.append(gen_case(rng, end, tol_only=(i % 4) < 2))
+    cases += [c for c in ctx.corpus() if c.get('kind') == 'agg']
+    for i in range(ctx.n(8, 200)):
+        cases.append(gen_agg_case(rng, 'client' if i % 2 == 0 else 'server'))
     for c in getattr(ctx, 'hints', None) or []:
-        if isinstance(c, dict) and 'steps' in c:
+        if isinstance(c, dict) and ('steps' in c or c.get('kind') == 'agg'):
             cases.append(c)
     check(ctx, res, cases)
     replay_witnesses(res)
@@ -1206,7 +1615,7 @@ def run(ctx):
 def replay(ctx, case):
     res = Result()
     res.rule = RULE
-    if 'steps' in case:
+    if 'steps' in case or case.get('kind') == 'agg':
         check(ctx, res, [case])
     return res
 
